@@ -1,4 +1,6 @@
 pub mod evidence;
 pub mod props;
+pub mod det;
 pub mod poolmc;
+pub mod schedmc;
 pub mod sio;
